@@ -104,7 +104,7 @@ def run(ctx):
     distinct = {(ob["ty"], ob.get("hex")) for ob in decoded if ob["len"] > 0}
     ctx.coverage.update({
         "evaluations": len(obs), "distinct_nontrivial": len(distinct),
-        "rule": "the C02 input stream with another seed (handcrafted inputs: all 256 encoding masks of DataValue and DiagnosticInfo and 55 of LocalizedText with exactly the fields the decoder reads, alone, inside a ReadResponse followed by more fields and inside Variant arrays followed by dimensions; unknown extension object ids, boundary lengths + %d mutated/valid/random encodings); the statement is evaluated on those that decode; distinct = distinct successfully decoded (type, input) with a non-empty input" % n,
+        "rule": "the C02 input stream with another seed (handcrafted inputs: all 256 encoding masks of DataValue and DiagnosticInfo and 55 of LocalizedText with exactly the fields the decoder reads, alone, inside a ReadResponse followed by more fields and inside Variant arrays followed by dimensions; nesting chains of 98..101 levels and of 28..51 rounds through registered structures (Variant/ExtensionObject/KeyValuePair), every decoded value is re-encoded; unknown extension object ids, boundary lengths + %d mutated/valid/random encodings); the statement is evaluated on those that decode; distinct = distinct successfully decoded (type, input) with a non-empty input" % n,
         "samples": [{k: ob[k] for k in ob if k not in ("val", "hex2")} for ob in decoded[:2] + decoded[-2:]],
         "decoded_ok": len(decoded),
         "noncanonical_reencodings": sum(1 for ob in decoded if ob.get("hex2") and ob.get("hex2") != ob.get("hex", "")[:len(ob.get("hex2", ""))]),
